@@ -47,6 +47,7 @@ def model_checks(tier):
 def via_route(heap, route, rng):
     """-> record dict (without i)"""
     rec = {'op': 'cells', 'route': route, 'pairs': [], 'twins': []}
+    groups = []
     base = route if route in ('ctor', 'reuse') else 'builder'
     try:
         objs = ck.build_heap(heap, base)
@@ -92,11 +93,16 @@ def via_route(heap, route, rng):
                     if kb:
                         s.load_bits(kb)
                     derived.append(s.to_cell())
-                    # ... and through a builder (Slice.to_builder / Builder.store_slice), also when every reference has been read
+                    # ... and through a builder (Slice.to_builder / Builder.store_slice), also when every reference has been read:
+                    # three conversions of ONE slice state are one cell
                     try:
                         from pytoniq_core.boc import Builder
+                        g = [len(derived) - 1]
                         derived.append(s.to_builder().end_cell())
+                        g.append(len(derived) - 1)
                         derived.append(Builder().store_slice(s).end_cell())
+                        g.append(len(derived) - 1)
+                        groups.append(g)
                     except Exception:
                         pass
                     if kr and kb:
@@ -114,6 +120,8 @@ def via_route(heap, route, rng):
     if route in ('copy', 'slice', 'tobuilder', 'slice_part', 'slice_from_cell'):
         # children are the ORIGINAL objects: project each derived cell together with what it references
         ph, roots, pobjs = ck.project(objs)
+        if groups and len(roots) == len(objs):
+            rec['agree'] = [[roots[j] for j in g] for g in groups]
         objs = pobjs
         heap2 = ph
     else:
